@@ -980,7 +980,12 @@ impl Bgi {
         if !self.viewport.contains(x, y) {
             return;
         }
-        let mut fill_lines = vec![Vec::new(); self.viewport.get_height() as usize];
+        // the scan lines are kept per row of the window and addressed by their absolute y (the viewport need not start
+        // at row 0 and may be larger than the window): only rows and pixels inside the window can be filled
+        if x < 0 || y < 0 || x >= self.window.width || y >= self.window.height {
+            return;
+        }
+        let mut fill_lines = vec![Vec::new(); self.window.height as usize];
         let mut point_stack = Vec::new();
 
         if self.screen[(y * self.window.width + x) as usize] != border {
@@ -993,7 +998,7 @@ impl Bgi {
 
                 while let Some(fli) = point_stack.pop() {
                     let cury = fli.y + fli.dir;
-                    if cury < self.viewport.bottom() && cury >= self.viewport.top() {
+                    if cury < self.viewport.bottom().min(self.window.height) && cury >= self.viewport.top().max(0) {
                         let y_offset = cury * self.window.width;
                         let mut cx = fli.x1;
                         while cx <= fli.x2 {
